@@ -45,6 +45,22 @@ type WorkerResult struct {
 	ReplayMsg string        `json:"replay_msg"`
 }
 
+// runStarted is the UnixNano at which the current run started (0: none); the
+// stall watchdog of crash-prone properties reads it.
+var runStarted atomic.Int64
+
+func startStallWatchdog() {
+	go func() {
+		for {
+			time.Sleep(time.Second)
+			if s := runStarted.Load(); s != 0 && time.Now().UnixNano()-s > int64(hangLimit) {
+				fmt.Fprintf(os.Stderr, "fatal error: hang: run did not finish within %v\n", hangLimit)
+				os.Exit(3)
+			}
+		}
+	}()
+}
+
 func TestWorker(t *testing.T) {
 	path := os.Getenv("HTSV_JOB")
 	if path == "" {
@@ -78,7 +94,12 @@ func TestWorker(t *testing.T) {
 	}
 	start := time.Now()
 	if job.Replay != "" {
+		if cp, ok := prop.(interface{ CrashProne() bool }); ok && cp.CrashProne() {
+			startStallWatchdog()
+		}
+		runStarted.Store(time.Now().UnixNano())
 		runReplay(t, prop, &job, res)
+		runStarted.Store(0)
 		res.WallS = time.Since(start).Seconds()
 		return
 	}
@@ -107,20 +128,11 @@ func TestWorker(t *testing.T) {
 	if cp, ok := prop.(interface{ CrashProne() bool }); ok {
 		crashProne = cp.CrashProne()
 	}
-	var runStarted atomic.Int64
 	if crashProne {
 		// A decoder spinning without a scheduling point cannot be preempted
 		// by the simulator; only here does real time take part in a verdict,
 		// with a limit far above any legitimate run (inputs are a few KiB).
-		go func() {
-			for {
-				time.Sleep(time.Second)
-				if s := runStarted.Load(); s != 0 && time.Now().UnixNano()-s > int64(hangLimit) {
-					fmt.Fprintf(os.Stderr, "fatal error: hang: run did not finish within %v\n", hangLimit)
-					os.Exit(3)
-				}
-			}
-		}()
+		startStallWatchdog()
 	}
 	if job.MaxRuns == 0 {
 		job.MaxRuns = prop.Runs(job.Tier)
@@ -247,7 +259,7 @@ func TestWorker(t *testing.T) {
 const maxKeysPerWorker = 400000
 
 // hangLimit is the real-time limit of one run of a crash-prone property.
-const hangLimit = 120 * time.Second
+const hangLimit = 60 * time.Second
 
 func matchKnown(known []KnownFinding, prop string, v *Violation) *KnownFinding {
 	for i := range known {
